@@ -62,3 +62,58 @@ func VerifH_C19_FragmentFormat() {
 	}
 	rt.Cover(rt.And(len(frags) >= 1, len(tls) == 2), "formatted-two-locations")
 }
+
+// VerifH_C19_FormatMarks: what the formatter marks. A fragment [fs,fe) of value 0 of an array field
+// ("abcdef") and up to three term locations in start order, each with symbolic offsets inside its own
+// value and belonging to value 0 or value 1 of the field: with the marks removed the output is
+// exactly the fragment's text, and every marked span is the text of a location of the fragment's own
+// value that lies inside the fragment - offsets of matches in other values are never applied to it.
+func VerifH_C19_FormatMarks() {
+	orig := []byte("abcdef")
+	fs, fe := rt.Int("frag_start"), rt.Int("frag_end")
+	rt.Assume(rt.And(0 <= fs, fs <= fe, fe <= len(orig)))
+	f := &highlight.Fragment{Orig: orig, ArrayPositions: []uint64{0}, Start: fs, End: fe}
+	n := rt.Choice("nloc", rt.Param("max_locs", 2)+1)
+	var tls highlight.TermLocations
+	prev := 0
+	for i := 0; i < n; i++ {
+		s, e := rt.Int("start"), rt.Int("end")
+		rt.Assume(rt.And(0 <= s, s < e, e <= len(orig), prev <= s))
+		prev = s
+		ap := uint64(rt.Choice("value", 2))
+		tls = append(tls, &highlight.TermLocation{Term: "t", Pos: i + 1, Start: s, End: e, ArrayPositions: []uint64{ap}})
+	}
+	out := html.NewFragmentFormatter("<", ">").Format(f, tls)
+	// parse: text outside and inside marks
+	plain := ""
+	inMark := false
+	markStart := 0
+	pos := fs // offset in orig of the next plain byte
+	for i := 0; i < len(out); i++ {
+		c := out[i]
+		switch {
+		case c == '<':
+			rt.Assert(!inMark, "marks do not nest")
+			inMark = true
+			markStart = pos
+		case c == '>':
+			rt.Assert(inMark, "every closing mark has an opening one")
+			inMark = false
+			ok := false
+			for _, tl := range tls {
+				if tl.ArrayPositions[0] == 0 && tl.Start == markStart && tl.End == pos {
+					ok = true
+				}
+			}
+			rt.Assert(ok, "every marked span is the text at a location of a term matched in this value of the field")
+		default:
+			plain += string([]byte{c})
+			pos++
+		}
+	}
+	rt.Assert(!inMark, "marks are closed")
+	rt.Assert(plain == string(orig[fs:fe]), "with the marks removed the fragment is a contiguous piece of the stored value")
+	if n >= 2 {
+		rt.Cover(rt.And(tls[0].ArrayPositions[0] == 1, tls[1].ArrayPositions[0] == 0, tls[1].Start >= fs, tls[1].End <= fe), "match-in-another-value-of-the-field")
+	}
+}
